@@ -231,6 +231,55 @@ theorem createDir_get (l : Layer) (p : Bytes) (x : Comps) :
   · right
     exact ⟨hok, hget x⟩
 
+theorem not_mem_prefixes_dropLast_self (c : Comps) : c ∉ prefixes c.dropLast := by
+  intro h
+  have := (mem_prefixes_dropLast.mp h).2.2
+  omega
+
+/-- When a write succeeds: the path names a file position (components, no trailing slash), no
+proper ancestor is a regular file, and the position is not a directory. -/
+theorem write_ok_iff (l : Layer) (p b : Bytes) :
+    (l.write p b).2 = .ok () ↔
+      (∀ x ∈ prefixes (parsePath p).comps.dropLast, isFileNode (l.get x) = false) ∧
+      (parsePath p).comps ≠ [] ∧ (parsePath p).mustDir = false ∧ l.get (parsePath p).comps ≠ some .dir := by
+  rw [write_eq]
+  rcases mkdirAll_cases l (parsePath p).comps.dropLast with ⟨he, q, hq, hqf⟩ | ⟨hok, hnf, hget⟩
+  · rw [he]
+    simp only [reduceCtorEq, if_false, false_iff]
+    intro ⟨h1, _⟩
+    rw [h1 q hq] at hqf; cases hqf
+  · simp only [hok, if_true]
+    have hself : (l.mkdirAll (parsePath p).comps.dropLast).1.get (parsePath p).comps = l.get (parsePath p).comps := by
+      rw [hget]; simp [not_mem_prefixes_dropLast_self]
+    by_cases hbad : ((parsePath p).comps.isEmpty || (parsePath p).mustDir) = true
+    · simp only [hbad, if_true, reduceCtorEq, false_iff]
+      intro ⟨_, h2, h3, _⟩
+      simp only [Bool.or_eq_true, List.isEmpty_iff] at hbad
+      rcases hbad with h | h
+      · exact h2 h
+      · rw [h3] at h; cases h
+    · simp only [hbad, Bool.false_eq_true, if_false, hself]
+      have hne : (parsePath p).comps ≠ [] := by
+        intro e; apply hbad; simp [e]
+      have hmd : (parsePath p).mustDir = false := by
+        cases h : (parsePath p).mustDir with
+        | false => rfl
+        | true => exfalso; apply hbad; simp [h]
+      by_cases hd : l.get (parsePath p).comps = some .dir
+      · simp [hd]
+      · simp only [hd, if_false, true_iff]
+        exact ⟨hnf, hne, hmd, hd⟩
+
+theorem createDir_ok_iff (l : Layer) (p : Bytes) :
+    (l.createDir p).2 = .ok () ↔ ∀ x ∈ prefixes (parsePath p).comps, isFileNode (l.get x) = false := by
+  unfold createDir
+  rcases mkdirAll_cases l (parsePath p).comps with ⟨he, q, hq, hqf⟩ | ⟨hok, hnf, _⟩
+  · rw [he]
+    simp only [reduceCtorEq, false_iff]
+    intro h1
+    rw [h1 q hq] at hqf; cases hqf
+  · simp [hok]; exact hnf
+
 /-! #### which entries an operation can add -/
 
 theorem mem_set (l : Layer) (c : Comps) (n : Node) (e : Comps × Node) (h : e ∈ l.set c n) :
